@@ -1,5 +1,6 @@
 import Verif.Spec.Order
 import Verif.Proofs.Refine.Lfuda
+import Verif.Proofs.Order.LfudaInv
 /-!
 # C14 (and C11 for lfuda_cache): counts with dynamic aging
 -/
@@ -18,7 +19,27 @@ theorem C14_lfuda_count (cap tickMs num den : Nat) (hcap : 0 < cap) (htick : 0 <
     (hstep : CStep Lfuda.core s now (.look k pk (some (v, n))) s')
     (hmono : STrace.monotone (tr ++ [(s, now, .look k pk (some (v, n)))])) :
     n = (lfudaGhost cap tickMs num den (tr ++ [(s, now, .look k pk (some (v, n)))])).cnt k := by
-  sorry
+  obtain ⟨hm1, hm2⟩ := STrace.monotone_snoc hmono
+  obtain ⟨T, hord, hT⟩ := Lfuda.ord_run cap tickMs num den hrun hm1
+  obtain ⟨hr, _⟩ := CStep.da_look_inv hstep
+  change some (v, n) = (Lfuda.find1 s now k pk).2 at hr
+  unfold lfudaGhost
+  rw [daGhost_snoc]
+  cases hg : getE s.ents k with
+  | none => simp [Lfuda.find1, hg] at hr
+  | some e0 =>
+    have hc := hord.cnt_eq e0 (getE_mem hg)
+    rw [getE_key hg] at hc
+    cases pk with
+    | true =>
+      simp only [Lfuda.find1, hg, if_true, Option.some.injEq, Prod.mk.injEq] at hr
+      simp only [daStep]
+      rw [hr.2, hc]
+    | false =>
+      simp only [Lfuda.find1, hg, Bool.false_eq_true, if_false, Option.some.injEq,
+        Prod.mk.injEq] at hr
+      simp only [daStep, DA.use, if_true]
+      rw [hr.2, hc]
 
 /-- **C14 (dynamically_age).** `dynamically_age()` returns the number of resident entries that had not
 been used or aged for strictly longer than the tick. -/
@@ -28,7 +49,12 @@ theorem C14_lfuda_age (cap tickMs num den : Nat) (hcap : 0 < cap) (htick : 0 < t
     (hstep : CStep Lfuda.core s now (.age n) s')
     (hmono : STrace.monotone (tr ++ [(s, now, .age n)])) :
     n = ((lfudaGhost cap tickMs num den tr).ageAt (keys s.ents) (tickMs * msNs) num den now).2 := by
-  sorry
+  obtain ⟨hm1, hm2⟩ := STrace.monotone_snoc hmono
+  obtain ⟨T, hord, hT⟩ := Lfuda.ord_run cap tickMs num den hrun hm1
+  obtain ⟨hn, _⟩ := CStep.da_age_inv hstep
+  change n = (Lfuda.dynAge s now).2 at hn
+  rw [hn]
+  exact (hord.dynAge (hT now hm2)).2.1
 
 /-- **C14/C11 (victim).** When an accepted insert of a new key finds the cache full, the residents are
 aged first and the entry removed then has a minimal count among them. -/
@@ -41,6 +67,62 @@ theorem C14_lfuda_victim (cap tickMs num den : Nat) (hcap : 0 < cap) (htick : 0 
     ∃ w, Evicts (keys s.ents) (keys s'.ents) k w ∧
       let aged := ((lfudaGhost cap tickMs num den tr).ageAt (keys s.ents) (tickMs * msNs) num den now).1
       ∀ u ∈ keys s.ents, aged.cnt w ≤ aged.cnt u := by
-  sorry
+  obtain ⟨hm1, hm2⟩ := STrace.monotone_snoc hmono
+  obtain ⟨T, hord, hT⟩ := Lfuda.ord_run cap tickMs num den hrun hm1
+  obtain ⟨ttl, hok, hs'⟩ := CStep.da_ins_inv hstep
+  change true = (Lfuda.insert1 s now k v al).2 at hok
+  change s' = (Lfuda.insert1 s now k v al).1 at hs'
+  have hg : getE s.ents k = none := getE_eq_none_iff.mpr hnew
+  have hfull' : s.ents.length ≥ s.cap := by rw [hord.cap_eq]; exact hfull
+  by_cases ha : al.ins = true
+  · simp only [Lfuda.insert1, hg, ha, if_true, hfull'] at hs'
+    obtain ⟨h1, _, h3⟩ := hord.dynAge (hT now hm2)
+    cases hl : (Lfuda.dynAge s now).1.ents with
+    | nil =>
+      exfalso
+      cases hse : s.ents with
+      | nil => rw [hse] at hfull; simp at hfull; omega
+      | cons e0 t0 =>
+        have hm : e0.key ∈ keys s.ents := by rw [hse]; simp [keys]
+        have := (h3 e0.key).mpr hm
+        rw [hl] at this
+        simp [keys] at this
+    | cons e t =>
+      have hp : Lfuda.prune s now = Lfuda.removeKey (Lfuda.dynAge s now).1 e.key := by
+        simp only [Lfuda.prune, hl]
+      rw [hp] at hs'
+      have hke : keys s'.ents =
+          keys (fileCnt (delE (Lfuda.dynAge s now).1.ents e.key)
+            { key := k, val := v, cnt := 1, stamp := now }) := by rw [hs']; rfl
+      have hew : e.key ∈ keys s.ents := (h3 e.key).mp (by rw [hl]; simp [keys])
+      have hne : e.key ≠ k := fun hh => hnew (hh ▸ hew)
+      refine ⟨e.key, ⟨hew, hne, ?_, ?_⟩, ?_⟩
+      · rw [hke, mem_keys_fileCnt]
+        rintro (hh | hh)
+        · exact hne hh
+        · exact not_mem_keys_delE_self _ _ hh
+      · intro u hu hue
+        rw [hke, mem_keys_fileCnt]
+        exact Or.inr (mem_keys_delE.mpr ⟨(h3 u).mpr hu, hue⟩)
+      · intro aged u hu
+        have hu' := (h3 u).mpr hu
+        obtain ⟨eu, heu, hku⟩ := exists_mem_of_mem_keys hu'
+        have hsorted := h1.sorted
+        unfold DaCntSorted at hsorted
+        have hce := h1.cnt_eq e (by rw [hl]; exact List.mem_cons_self ..)
+        have hcu := h1.cnt_eq eu heu
+        rw [hl] at hsorted heu
+        rw [List.pairwise_cons] at hsorted
+        have hle : e.cnt ≤ eu.cnt := by
+          rcases List.mem_cons.mp heu with hh | hh
+          · rw [hh]; exact Nat.le_refl _
+          · exact hsorted.1 eu hh
+        rw [hku] at hcu
+        show ((lfudaGhost cap tickMs num den tr).ageAt (keys s.ents) (tickMs * msNs) num den now).1.cnt e.key
+          ≤ ((lfudaGhost cap tickMs num den tr).ageAt (keys s.ents) (tickMs * msNs) num den now).1.cnt u
+        unfold lfudaGhost
+        rw [← hce, ← hcu]
+        exact hle
+  · simp [Lfuda.insert1, hg, ha] at hok
 
 end Verif
